@@ -295,7 +295,8 @@ func (g *hostileGen) honest() (claim, bool) {
 
 var mutationNames = []string{"swap-targets", "swap-hashes", "target->sibling", "target->parent", "target->cousin", "target->other-tree", "dup-target",
 	"flip-proof-hash", "drop-proof-hash", "insert-proof-hash", "dup-proof-hash", "permute-proof", "hash->fresh", "hash->root", "hash->other-node",
-	"hash->zero", "drop-hash", "target->beyond", "add-nested-target", "target->child", "append-junk-proof", "hash->sibling-hash"}
+	"hash->zero", "drop-hash", "target->beyond", "add-nested-target", "target->child", "append-junk-proof", "hash->sibling-hash",
+	"hash-tail-flip", "proof-tail-flip", "hash-head-flip"}
 
 // mutate applies one structured mutation; ok=false if it does not apply.
 func (g *hostileGen) mutate(c claim) (claim, bool) {
@@ -404,6 +405,23 @@ func (g *hostileGen) mutate(c claim) (claim, bool) {
 			return c, false
 		}
 		c.Targets[pick()] = g.target(nil)
+	case "hash-tail-flip", "hash-head-flip":
+		// a claimed hash that agrees with the true one in its first 12 bytes (the pointer
+		// forest's map key) / only in its last 20
+		if len(c.Hashes) == 0 {
+			return c, false
+		}
+		i := r.Intn(len(c.Hashes))
+		if m == "hash-tail-flip" {
+			c.Hashes[i][12+r.Intn(20)] ^= 1 << uint(r.Intn(8))
+		} else {
+			c.Hashes[i][r.Intn(12)] ^= 1 << uint(r.Intn(8))
+		}
+	case "proof-tail-flip":
+		if len(c.Proof) == 0 {
+			return c, false
+		}
+		c.Proof[r.Intn(len(c.Proof))][12+r.Intn(20)] ^= 1 << uint(r.Intn(8))
 	case "flip-proof-hash":
 		if len(c.Proof) == 0 {
 			return c, false
